@@ -2,6 +2,7 @@ import itertools
 
 from harness import gens
 from harness.props import rowgen
+from harness.props import c05 as _c05
 
 ALPHABET = "x-.&+, 1234560ETe"
 
@@ -53,18 +54,36 @@ class C02(rowgen.RowGenProp):
                 yield rowgen.gen_case(rng, spec, n_rows)
             else:
                 yield {"k": "convert", "s": gens.render_ast(rng, gens.rand_ast(rng, rng.randint(2, 16)))}
+        # through the Bot: every start of the method in a session (first Go, a second Go after That's all /
+        # Rounds) rings the notation's rows from the start index
+        yield from _c05.PROP.world_cases(rng, 25 if tier == "quick" else 250)
+
+    def impl(self, req):
+        return _c05.PROP.impl(req) if req["k"] == "world" else super().impl(req)
+
+    def to_model(self, req):
+        return _c05.PROP.to_model(req) if req["k"] == "world" else super().to_model(req)
+
+    def compare(self, req, ir, mr):
+        return _c05.PROP.compare(req, ir, mr) if req["k"] == "world" else super().compare(req, ir, mr)
 
     def nontrivial(self, req, reply):
+        if req["k"] == "world":
+            return _c05.PROP.nontrivial(req, reply)
         if req["k"] == "convert":
             return "ok" in reply["convert"] and len(reply["convert"]["ok"]) >= 2
         return super().nontrivial(req, reply)
 
     def tag(self, req, reply):
+        if req["k"] == "world":
+            return "bot:start-and-restart"
         if req["k"] == "convert":
             return f"convert:len{len(req['s'])}:{'ok' if 'ok' in reply['convert'] else 'err'}"
         return super().tag(req, reply)
 
     def oracle(self, req, reply):
+        if req["k"] == "world":
+            return _c05.PROP.oracle_world(req, reply)
         if req["k"] != "gen" or "err" in reply:
             return None
         spec = req["gen"]
